@@ -12,6 +12,7 @@ import (
 	"fmt"
 	"io"
 	"os"
+	"reflect"
 	"strings"
 )
 
@@ -25,6 +26,31 @@ func (timeoutErr) Error() string   { return "i/o timeout (injected)" }
 func (timeoutErr) Timeout() bool   { return true }
 func (timeoutErr) Temporary() bool { return true }
 
+// listErr is an aggregate error returned by value (like go/scanner.ErrorList): a slice type, so two of them can not
+// be compared with ==
+type listErr []string
+
+func (e listErr) Error() string { return "injected: " + strings.Join(e, "; ") }
+
+// detailErr is a struct error holding a slice: not comparable either
+type detailErr struct {
+	Op    string
+	Notes []string
+}
+
+func (e detailErr) Error() string { return e.Op + ": injected fault with details" }
+
+// SameErr reports whether got is (or wraps) want, without ever comparing uncomparable values with ==.
+func SameErr(got, want error) bool {
+	if got == nil || want == nil {
+		return got == nil && want == nil
+	}
+	if errors.Is(got, want) {
+		return true
+	}
+	return reflect.TypeOf(got) == reflect.TypeOf(want) && got.Error() == want.Error()
+}
+
 // FaultErrs are the error values a Source can fail with: an ordinary error, errors that loaders might be
 // tempted to treat as "end of data" (io.ErrUnexpectedEOF, an error wrapping io.EOF), a closed pipe, a timeout.
 var FaultErrs = map[string]error{
@@ -33,10 +59,12 @@ var FaultErrs = map[string]error{
 	"wrapped-eof":    fmt.Errorf("read tcp 10.0.0.1:443: %w", io.EOF),
 	"closed-pipe":    io.ErrClosedPipe,
 	"timeout":        timeoutErr{},
+	"list":           listErr{"first problem", "second problem"},
+	"detail":         detailErr{Op: "read", Notes: []string{"sector 7"}},
 }
 
 // FaultErrNames in a fixed order.
-var FaultErrNames = []string{"", "unexpected-eof", "wrapped-eof", "closed-pipe", "timeout"}
+var FaultErrNames = []string{"", "unexpected-eof", "wrapped-eof", "closed-pipe", "timeout", "list", "detail"}
 
 type Source struct {
 	Data          []byte
